@@ -536,7 +536,7 @@ def _norm_slice(s: SomeSlice, n: int) -> NormalizedSlice:
         return slice(s, s + 1)
     start = _fill_if_none(s.start, 0)
     stop = _fill_if_none(s.stop, n)
-    start, stop = (x if x >= 0 else n + x for x in (start, stop))
+    start, stop = (x if x >= 0 else max(0, n + x) for x in (start, stop))
     return slice(start, stop, s.step)
 
 
